@@ -792,6 +792,8 @@ class Interp:
                 return dict(recv)
             if name == "setdefault":
                 return recv.setdefault(self.hashkey(args[0], node), args[1] if len(args) > 1 else None)
+        if isinstance(recv, tuple) and name in ("index", "count"):
+            recv = list(recv)
         if isinstance(recv, list) and name in _LIST_METHODS:
             if name == "append":
                 recv.append(args[0])
@@ -1163,6 +1165,8 @@ class Interp:
             return LibMethod(v, name)
         if isinstance(v, list) and name in _LIST_METHODS:
             return LibMethod(v, name)
+        if isinstance(v, tuple) and name in ("index", "count"):
+            return LibMethod(v, name)
         if v is None:
             raise self.fault("AttributeError", node, f"'NoneType' object has no attribute '{name}'")
         kind = self.kind_of(v)
@@ -1176,6 +1180,10 @@ class Interp:
         if isinstance(v, FuncRef) and name in ("__name__", "__qualname__"):
             return v.fi.name
         if isinstance(v, (str, dict, list, tuple, Num)):
+            real = {str: str, dict: dict, list: list, tuple: tuple}.get(type(v), float)
+            if hasattr(real, name):
+                # the Python type does have this attribute: it is the summary that is missing, not the attribute
+                self.err(node, f"no summary for attribute '{name}' of {kind}")
             raise self.fault("AttributeError", node, f"'{kind}' object has no attribute '{name}'")
         self.err(node, f"no summary for attribute '{name}' of {kind}")
 
